@@ -3,7 +3,7 @@ CONSTANTS
   NeSet = {2, 3}
   NpgSet = {2, 3}
   Dims = {2, 3}
-  MaxRank = 2
+  MaxRank = 3
   Ops = {"T", "reduce", "det", "inv", "trace", "transpose", "broadcast"}
   Emit = TRUE
 INVARIANT TypeRule
